@@ -3,9 +3,14 @@ package main
 // What Keeper.ApplyEvmMsg (x/evm/keeper) does with the sender nonce around the EVM invocation — printed as three
 // booleans (terms, never verdicts):
 //
-//	apply_nonce_reset        StateDB.SetNonce(from, msg.Nonce()) runs before evm.Create / evm.Call on every path
+//	apply_pre_nonce_call     the last sender-nonce write before evm.Call: 0 none | 1 msg.Nonce() | 2 msg.Nonce()+1 | 3 differs by path
+//	apply_pre_nonce_create   … before evm.Create
 //	apply_post_nonce_call    StateDB.SetNonce(from, msg.Nonce()+1) runs after evm.Call on every successful exit
 //	apply_post_nonce_create  … after evm.Create …
+//
+// The body is analysed once per truth assignment of the boolean identifiers it branches on (`if contractCreation {…}`):
+// an `if` on an assumed identifier follows one branch only, so a write in one `if contractCreation` and the invocation in
+// a later one are correlated; assumptions follow identifiers passed to same-package helpers.
 //
 // A tiny abstract interpretation of the function body: statements in order, if / switch branches separately,
 // same-package helper functions entered at their call (so the Create-vs-Call dispatch may live in a helper), branches
@@ -28,10 +33,17 @@ const (
 )
 
 type nstate struct {
-	kind    [2]int  // 0 = call, 1 = create
-	resetOK [2]bool // at the time the EVM was invoked the nonce had been reset to msg.Nonce()
-	reset   bool    // SetNonce(from, msg.Nonce()) executed on this path so far
-	dead    bool    // path ended (return)
+	kind  [2]int // 0 = call, 1 = create
+	preAt [2]int // the last sender-nonce write at the time the EVM was invoked: 0 none, 1 n, 2 n+1, 3 differs by path
+	pre   int    // the last sender-nonce write on this path so far
+	dead  bool   // path ended (return)
+}
+
+func mergePre(a, b int) int {
+	if a == b {
+		return a
+	}
+	return 3
 }
 
 func mergeStates(a, b nstate) nstate {
@@ -41,19 +53,19 @@ func mergeStates(a, b nstate) nstate {
 	if b.dead {
 		return a
 	}
-	out := nstate{reset: a.reset && b.reset}
+	out := nstate{pre: mergePre(a.pre, b.pre)}
 	for k := 0; k < 2; k++ {
 		switch {
 		case a.kind[k] == stNotRun:
-			out.kind[k], out.resetOK[k] = b.kind[k], b.resetOK[k]
+			out.kind[k], out.preAt[k] = b.kind[k], b.preAt[k]
 		case b.kind[k] == stNotRun:
-			out.kind[k], out.resetOK[k] = a.kind[k], a.resetOK[k]
+			out.kind[k], out.preAt[k] = a.kind[k], a.preAt[k]
 		default:
 			out.kind[k] = a.kind[k]
 			if b.kind[k] > out.kind[k] {
 				out.kind[k] = b.kind[k]
 			}
-			out.resetOK[k] = a.resetOK[k] && b.resetOK[k]
+			out.preAt[k] = mergePre(a.preAt[k], b.preAt[k])
 		}
 	}
 	return out
@@ -63,6 +75,7 @@ type nonceAnalysis struct {
 	funcs  map[string]*ast.FuncDecl
 	depth  int
 	locals map[string]string // single-definition locals of the function being analysed
+	assume map[string]bool   // truth assignment of the identifiers the function branches on
 	exits  []nstate          // states at the successful exits of the TOP function
 }
 
@@ -163,26 +176,42 @@ func (na *nonceAnalysis) calls(n ast.Node, s nstate) nstate {
 		case isSel && name == "SetNonce" && len(c.Args) == 2:
 			switch na.nonceArg(c.Args[1]) {
 			case "n":
-				s.reset = true
+				s.pre = 1
 			case "n+1":
+				s.pre = 2
 				for k := 0; k < 2; k++ {
 					if s.kind[k] == stRanNoBump {
 						s.kind[k] = stBumped
 					}
 				}
+			default:
+				s.pre = 3
 			}
 		case isSel && name == "Create" && len(c.Args) == 4:
-			s.kind[1], s.resetOK[1] = stRanNoBump, s.reset
+			s.kind[1], s.preAt[1] = stRanNoBump, s.pre
 		case isSel && name == "Call" && len(c.Args) == 5:
-			s.kind[0], s.resetOK[0] = stRanNoBump, s.reset
+			s.kind[0], s.preAt[0] = stRanNoBump, s.pre
 		default:
 			if fd, ok := na.funcs[name]; ok && fd.Body != nil && na.depth < 4 && mentionsEVM(fd) {
 				na.depth++
-				saved := na.locals
+				saved, savedAssume := na.locals, na.assume
 				na.locals = singleDefs(fd)
+				inner := map[string]bool{}
+				var params []string
+				for _, f := range fd.Type.Params.List {
+					for _, nm := range f.Names {
+						params = append(params, nm.Name)
+					}
+				}
+				for i, a := range c.Args {
+					if v, ok := condValue(a, savedAssume); ok && i < len(params) {
+						inner[params[i]] = v
+					}
+				}
+				na.assume = inner
 				var rets []nstate
 				end := na.block(fd.Body.List, s, &rets)
-				na.locals = saved
+				na.locals, na.assume = saved, savedAssume
 				na.depth--
 				out := end
 				for _, r := range rets {
@@ -194,6 +223,51 @@ func (na *nonceAnalysis) calls(n ast.Node, s nstate) nstate {
 		}
 	}
 	return s
+}
+
+// condValue evaluates `x` / `!x` under the assumptions
+func condValue(e ast.Expr, assume map[string]bool) (bool, bool) {
+	switch x := e.(type) {
+	case *ast.Ident:
+		v, ok := assume[x.Name]
+		return v, ok
+	case *ast.ParenExpr:
+		return condValue(x.X, assume)
+	case *ast.UnaryExpr:
+		if x.Op == token.NOT {
+			v, ok := condValue(x.X, assume)
+			return !v, ok
+		}
+	}
+	return false, false
+}
+
+// branchIdents: identifiers used as a bare `if x` / `if !x` condition in the function
+func branchIdents(fd *ast.FuncDecl) []string {
+	seen := map[string]bool{}
+	var out []string
+	ast.Inspect(fd.Body, func(n ast.Node) bool {
+		is, ok := n.(*ast.IfStmt)
+		if !ok {
+			return true
+		}
+		var e ast.Expr = is.Cond
+		for {
+			if p, ok := e.(*ast.ParenExpr); ok {
+				e = p.X
+			} else if u, ok := e.(*ast.UnaryExpr); ok && u.Op == token.NOT {
+				e = u.X
+			} else {
+				break
+			}
+		}
+		if id, ok := e.(*ast.Ident); ok && !seen[id.Name] {
+			seen[id.Name] = true
+			out = append(out, id.Name)
+		}
+		return true
+	})
+	return out
 }
 
 func mentionsEVM(fd *ast.FuncDecl) bool {
@@ -221,6 +295,15 @@ func (na *nonceAnalysis) stmt(st ast.Stmt, s nstate, rets *[]nstate) nstate {
 			s = na.stmt(x.Init, s, rets)
 		}
 		s = na.calls(x.Cond, s)
+		if v, ok := condValue(x.Cond, na.assume); ok {
+			if v {
+				return na.block(x.Body.List, s, rets)
+			}
+			if x.Else != nil {
+				return na.stmt(x.Else, s, rets)
+			}
+			return s
+		}
 		a := na.block(x.Body.List, s, rets)
 		b := s
 		if x.Else != nil {
@@ -276,32 +359,52 @@ func (na *nonceAnalysis) stmt(st ast.Stmt, s nstate, rets *[]nstate) nstate {
 func emitApplyNonce(repo string) {
 	files := ParseDir(repo + "/x/evm/keeper")
 	funcs := Funcs(files)
-	reset, postCall, postCreate := false, false, false
+	pre := [2]int{0, 0}
+	post := [2]bool{false, false}
 	if fd, ok := funcs["ApplyEvmMsg"]; ok && fd.Body != nil {
-		na := &nonceAnalysis{funcs: funcs, locals: singleDefs(fd)}
+		ids := branchIdents(fd)
+		if len(ids) > 4 {
+			ids = ids[:4]
+		}
 		var rets []nstate
-		end := na.block(fd.Body.List, nstate{}, &rets)
-		if !end.dead {
-			rets = append(rets, end)
+		for m := 0; m < 1<<len(ids); m++ {
+			assume := map[string]bool{}
+			for i, id := range ids {
+				assume[id] = m&(1<<i) != 0
+			}
+			na := &nonceAnalysis{funcs: funcs, locals: singleDefs(fd), assume: assume}
+			var rs []nstate
+			end := na.block(fd.Body.List, nstate{}, &rs)
+			if !end.dead {
+				rs = append(rs, end)
+			}
+			rets = append(rets, rs...)
 		}
-		sawCall, sawCreate := false, false
-		reset, postCall, postCreate = true, true, true
+		saw := [2]bool{}
+		post = [2]bool{true, true}
 		for _, r := range rets {
-			if r.kind[0] != stNotRun {
-				sawCall = true
-				postCall = postCall && r.kind[0] == stBumped
-				reset = reset && r.resetOK[0]
-			}
-			if r.kind[1] != stNotRun {
-				sawCreate = true
-				postCreate = postCreate && r.kind[1] == stBumped
-				reset = reset && r.resetOK[1]
+			for k := 0; k < 2; k++ {
+				if r.kind[k] == stNotRun {
+					continue
+				}
+				if !saw[k] {
+					pre[k] = r.preAt[k]
+				} else {
+					pre[k] = mergePre(pre[k], r.preAt[k])
+				}
+				saw[k] = true
+				post[k] = post[k] && r.kind[k] == stBumped
 			}
 		}
-		postCall, postCreate = postCall && sawCall, postCreate && sawCreate
-		reset = reset && (sawCall || sawCreate)
+		for k := 0; k < 2; k++ {
+			post[k] = post[k] && saw[k]
+			if !saw[k] {
+				pre[k] = 3
+			}
+		}
 	}
-	fmt.Printf("Definition apply_nonce_reset : bool := %s.\n", CoqBool(reset))
-	fmt.Printf("Definition apply_post_nonce_call : bool := %s.\n", CoqBool(postCall))
-	fmt.Printf("Definition apply_post_nonce_create : bool := %s.\n", CoqBool(postCreate))
+	fmt.Printf("Definition apply_pre_nonce_call : nat := %d.\n", pre[0])
+	fmt.Printf("Definition apply_pre_nonce_create : nat := %d.\n", pre[1])
+	fmt.Printf("Definition apply_post_nonce_call : bool := %s.\n", CoqBool(post[0]))
+	fmt.Printf("Definition apply_post_nonce_create : bool := %s.\n", CoqBool(post[1]))
 }
